@@ -222,6 +222,7 @@ def long_texts(n):
         ("deep-tuple", "fn f() {\nlet a = 1;\nlet b = 2;\nlet t = (%s);\nreturn t.len() + a + b;\n}\nprint(f());" % items, "%d\n" % (n + 3)),
         ("deep-map", "fn f() {\nlet a = 1;\nlet m = {%s};\nreturn m.len() + a;\n}\nprint(f());" % ", ".join("%d: 1" % i for i in range(n)),
          "%d\n" % (n + 1)),
+        ("deep-interpolation-empty-tail", "fn f(p) {\nlet a = 1;\nlet s = '%s${}';\nreturn s.len() + a;\n}\nprint(f(0));" % ("${p}" * n), "%d\n" % (n + 1)),
         ("deep-interpolation", "fn f(p) {\nlet a = 1;\nlet s = '%s';\nreturn s.len() + a;\n}\nprint(f(0));" % ("${p}" * n), "%d\n" % (n + 1)),
     ]
 
